@@ -3,10 +3,17 @@ package msgformat
 import (
 	"encoding/binary"
 	"errors"
+	"math"
 )
+
+// ErrMessageTooLong is returned when a message does not fit the length prefix.
+var ErrMessageTooLong = errors.New("message too long for length prefix")
 
 // Add length prefix to message
 func AddRequestFormat(p []byte) ([]byte, error) {
+	if len(p) > math.MaxUint8 {
+		return nil, ErrMessageTooLong
+	}
 	length := uint8(len(p))
 	prefixed := append([]byte{length}, p...)
 	return prefixed, nil
@@ -26,6 +33,9 @@ func RemoveRequestFormat(p []byte) ([]byte, error) {
 
 // Add length prefix to response, using uint16 instad of uint8 for larger payload
 func AddResponseFormat(p []byte) ([]byte, error) {
+	if len(p) > math.MaxUint16 {
+		return nil, ErrMessageTooLong
+	}
 	length := uint16(len(p))
 	b := make([]byte, 2)
 	binary.BigEndian.PutUint16(b, length)
